@@ -181,6 +181,22 @@ Proof.
   rewrite <- concat_app, firstn_skipn. apply concat_chunk. nl.
 Qed.
 
+(* ------------------------------------------------------------------ rotate with extra amounts *)
+
+(** more integer amounts than axes: an array without elements is returned unchanged, an array
+    with elements is refused (tests/dyadic.ua:72-73) *)
+Theorem rotate_extra_axes : forall a n s (zs : list Z), ash a = n :: s -> aty a <> TBox ->
+  (length (ash a) < length zs)%nat ->
+  p_rotate None (map AInt zs) a = if Nat.eqb (prodn (ash a)) 0 then Ok a else Err.
+Proof.
+  intros [t sh d] n s zs Hs Ht Hl; cbn [aty ash adata] in *; subst sh.
+  unfold p_rotate; cbn [aty ash adata box_fill].
+  rewrite map_length. destruct (Nat.ltb_spec (length (n :: s)) (length zs)); [|lia].
+  assert (E : existsb (fun m => match m with AInt _ => false | _ => true end) (map AInt zs) = false).
+  { clear. induction zs; cbn; auto. }
+  rewrite E. reflexivity.
+Qed.
+
 (* ------------------------------------------------------------------ keep *)
 
 Lemma Forall_flat_map_repeat {A} (P : A -> Prop) (k : nat) (l : list A) :
